@@ -1,7 +1,7 @@
 """C19 — permute_incidence_fixed_sums makes margin-preserving checkerboard swaps only."""
 import itertools
 import numpy as np
-from .common import guarded, run_model, rows, ints
+from .common import gstate, guarded, run_model, rows, ints
 from .prng import RecSHA256, RecRandomState
 
 RULE = ("every binary matrix of shape 2x2 .. 3x3 (and 2x4, 3x4 in thorough) that admits a checkerboard swap, plus "
@@ -95,7 +95,7 @@ def run(ctx):
                 mm = np.asfortranarray(mm)
             ctx.count("dtype-" + mm.dtype.name)
             snap = mm.copy()
-            st0 = np.random.get_state()[1].copy()
+            st0 = gstate()
             r = guarded(utils.permute_incidence_fixed_sums, mm, k, g, secs=60)
             det = {"call": "permute_incidence_fixed_sums", "matrix": m.tolist(), "k": k, "seed": seedv, "generator": kind}
             ctx.case((tuple(map(tuple, m.tolist())), k, seedv, kind), k >= 1, det if k >= 1 else None)
@@ -114,7 +114,7 @@ def run(ctx):
                 why = "result differs from the input in more than 4k cells"
             elif k == 0 and not np.array_equal(out, m):
                 why = "k = 0 does not return an equal copy"
-            elif not np.array_equal(np.random.get_state()[1], st0):
+            elif gstate() != st0:
                 why = "numpy's global random state was advanced by a seeded call"
             if why is None:
                 # reproducible under a different global state
